@@ -100,8 +100,8 @@ Proof.
     destruct fuel as [|fuel]; [lia|]. cbn [go_while]. replace (term_code t =? 0) with false by lia.
     cbn [after negb]. destruct t; reflexivity.
   - cbn [go_readbyte st_rest st_term]. cbv beta iota.
-    change (go_while fuel _ _ (false, 0, Imp_fastard_Fasta [] [], b, 0, ?s))
-      with (go_while fuel fr_cond fr_body (false, st_code SStart, fa [] [], b, 0, s)).
+    timeout 120 (change (go_while fuel _ _ (false, 0, Imp_fastard_Fasta [] [], b, 0, ?s))
+      with (go_while fuel fr_cond fr_body (false, st_code SStart, fa [] [], b, 0, s))).
     change (after ?m _) with (after m fr_final).
     rewrite (fr_loop (term_code t) Htc rest fuel SStart [] [] false b) by (cbn [length] in Hf; lia).
     destruct (rd_loop SStart [] [] false (b :: rest)) as [[[nm sq] any] [rest'|]]; cbn [fr_outcome].
@@ -151,7 +151,7 @@ Theorem imp_fasta_iter fuel inp t : (length inp + 2 < fuel)%nat ->
   = Ret (Stream [] (term_code t) None, map (fa_item t) (decode inp t)).
 Proof.
   intros Hf. unfold imp_fastard_reader_iter, decode. cbv zeta.
-  change (go_while fuel _ _ ([], ?s)) with (go_while fuel (fun _ => Ret true) (fi_body fuel) ([], s)).
+  timeout 120 (change (go_while fuel _ _ ([], ?s)) with (go_while fuel (fun _ => Ret true) (fi_body fuel) ([], s))).
   rewrite (fi_loop t fuel (S (length inp)) fuel inp []) by lia. reflexivity.
 Qed.
 
